@@ -78,8 +78,9 @@ with ps_of_cw_entries (d : cw_dlist) : ps_dict :=
   match d with DNil => [] | DCons k v r => (k, ps_of_cw v) :: ps_of_cw_entries r end.
 
 (* ---------------------------------------------------------------- the text and the codec *)
-(* EmitValue(fp, 0, value): a dictionary's entries are indented by one tab, its closing brace by none *)
-Definition ps_text_of (v : ps_value) : cw_bytes := cw_emit_value cw_src_mode 1 (ps_to_cw v).
+(* EmitValue(fp, 0, value) -> EmitScope(fp, 0, ..): the entries of a top-level dictionary and its closing brace are not
+   indented, the entries of a dictionary nested in it by one tab, ... *)
+Definition ps_text_of (v : ps_value) : cw_bytes := cw_emit_value cw_src_mode 0 (ps_to_cw v).
 
 (* what the config compiler reads back from the literal; None = syntax error *)
 Definition ps_text_codec (v : ps_value) : option ps_value :=
